@@ -1100,6 +1100,14 @@ class UnitInfer:
         if not a.is_zero():
             self.eqs.append(Equation(a, why, node))
 
+    def is_bound(self, node):
+        """a clamp bound: a numeric literal, possibly through a named module/class-level constant"""
+        if isinstance(node, ast.Constant) and isinstance(node.value, (int, float)) and not isinstance(node.value, bool):
+            return True
+        if _is_neg_const(node):
+            return True
+        return self.leaf(("const?", node), self) is True
+
     def const_exponent(self, node):
         """Fraction value of a constant-foldable exponent or None"""
         try:
@@ -1211,13 +1219,13 @@ class UnitInfer:
             if short in ("abs", "asarray", "array", "ascontiguousarray", "float", "copy", "real") and len(args) >= 1:
                 return self.u(args[0])
             if short in ("maximum", "minimum") and len(args) == 2:
-                a = self.u(args[0], clamp=isinstance(args[0], ast.Constant))
-                b = self.u(args[1], clamp=isinstance(args[1], ast.Constant) or _is_neg_const(args[1]))
+                a = POLYM if self.is_bound(args[0]) else self.u(args[0])
+                b = POLYM if self.is_bound(args[1]) else self.u(args[1])
                 return self.same(a, b, "arguments of %s in `%s`" % (short, pf.src(node)[:90]), node)
             if short == "clip" and len(args) == 3:
                 a = self.u(args[0])
                 for b in args[1:]:
-                    a = self.same(a, self.u(b, clamp=isinstance(b, ast.Constant) or _is_neg_const(b)),
+                    a = self.same(a, POLYM if self.is_bound(b) else self.u(b),
                                   "bounds of clip in `%s`" % pf.src(node)[:90], node)
                 return a
             if short in ("divide", "true_divide") and len(args) == 2:
